@@ -235,8 +235,8 @@ impl Stats {
         }
         self.loom_iters += o.loom_iters;
         self.ref_states += o.ref_states;
-        for s in o.samples {
-            if self.samples.len() < 6 {
+        for s in o.samples.into_iter().take(2) {
+            if self.samples.len() < 7 {
                 self.samples.push(s);
             }
         }
@@ -373,6 +373,8 @@ pub fn run_property(root: &Path, prop: &str, tier: Tier, seed: u64) -> i32 {
         }
     }
     drop(w0);
+    // keep at most one of the replayed reproducers as a sample: the samples should show generated cases
+    stats.samples.truncate(1);
 
     // 3. fixed + generated cases on parallel lanes
     let fixed: Arc<Vec<Case>> = Arc::new(props::fixed(prop, tier));
